@@ -34,7 +34,8 @@
 (*   PairSpec  TWO tile positions of one PyramidIO with up to two live        *)
 (*             buffers (results of read_image(default = "masked") or bodies   *)
 (*             of update_image contexts, possibly nested, possibly for the    *)
-(*             same position) under Open / Mutate / Close; what happens to    *)
+(*             same position) under Open / Mutate (fill, update, direct       *)
+(*             assignment through the array, clear) / Close; what happens to  *)
 (*             one live buffer never shows in the other, and a position is    *)
 (*             persisted with exactly what was put into ITS buffer.           *)
 EXTENDS Integers, Sequences, FiniteSets, SequencesExt, TLC
@@ -175,18 +176,19 @@ GotMasked(m) == [kind |-> "image", mode |-> BufMode(m), px |-> AllU, sz |-> "ful
 -----------------------------------------------------------------------------
 VARIABLES cls, buf,                \* BufSpec: mode class, buffer contents
           fmt, file, got, fcall,   \* FileSpec: pyramid format, the tile file, result of the last read, pending call
+          lenv,                    \* FileSpec: how OTHER ImageLoader objects of the process were last configured
           pmode, pfile, phand      \* PairSpec (with fmt): image mode, the two tile files, the two live buffers
 bvars == <<cls, buf>>
-fvars == <<fmt, file, got, fcall>>
+fvars == <<fmt, file, got, fcall, lenv>>
 pvars == <<pmode, pfile, phand>>
-vars == <<cls, buf, fmt, file, got, fcall, pmode, pfile, phand>>
+vars == <<cls, buf, fmt, file, got, fcall, lenv, pmode, pfile, phand>>
 
 NoF == [op |-> "none", mode |-> "none", px |-> AllU]
 Positions == {1, 2}
 Handles == {1, 2}
 Closed == [pos |-> 0, px |-> AllU]                          \* no live buffer in this slot
 BufFrozen == cls = "RGBA" /\ buf = AllU
-OneFileFrozen == file = Absent /\ got = NoGot /\ fcall = NoF
+OneFileFrozen == file = Absent /\ got = NoGot /\ fcall = NoF /\ lenv = "fresh"
 PairFrozen == pmode = "none" /\ pfile = [p \in Positions |-> Absent] /\ phand = [k \in Handles |-> Closed]
 FileFrozen == fmt = "none" /\ OneFileFrozen /\ PairFrozen
 
@@ -212,21 +214,28 @@ BNext == /\ \/ buf' \in PriorTiles                              \* a buffer read
 BufSpec == BInit /\ [][BNext]_vars
 
 \* ---- the tile-file machine
-FInit == fmt \in Formats /\ file = Absent /\ got = NoGot /\ fcall = NoF /\ BufFrozen /\ PairFrozen
+\* lenv: the process also loads INPUT images through ImageLoader objects configured from command-line options
+\* (ImageLoader.create_from_args); "fresh" = none yet, "all" = the last one was given every option (black-to-transparent,
+\* no colourspace processing, a crop, a Photoshop layer), "dflt" = the last one was given the defaults.  Tiles are read
+\* through loaders of their own (read_image makes one per call): what other loaders were told must not matter.
+LoaderConfigs == {"all", "dflt"}
+FInit == fmt \in Formats /\ file = Absent /\ got = NoGot /\ fcall = NoF /\ lenv = "fresh" /\ BufFrozen /\ PairFrozen
 FCall == /\ fcall.op = "none"
          /\ \/ fcall' = [op |-> "readnone", mode |-> "none", px |-> AllU]
             \/ \E m \in Modes : fcall' = [op |-> "readmasked", mode |-> m, px |-> AllU]
             \/ \E m \in CanHold[fmt] : \E t \in TilesOf(m) : fcall' = [op |-> "write", mode |-> m, px |-> t]
-         /\ got' = NoGot /\ UNCHANGED <<fmt, file>>
+            \/ \E o \in LoaderConfigs : fcall' = [op |-> "configure", mode |-> o, px |-> AllU]
+         /\ got' = NoGot /\ UNCHANGED <<fmt, file, lenv>>
 \* write_image: a completely masked image is not saved and the path is unlinked; anything else is saved
 FileAfter(f, cl) == IF cl.op # "write" THEN f
                     ELSE IF Masked(cl.mode, cl.px) THEN Absent ELSE [mode |-> cl.mode, px |-> cl.px]
 \* read_image: the loader's image, or on ENOENT None / a cleared maskable buffer
-GotAfter(f, cl) == CASE cl.op = "write" -> NoGot
+GotAfter(f, cl) == CASE cl.op \in {"write", "configure"} -> NoGot
                      [] cl.op = "readnone" -> IF f = Absent THEN GotNone ELSE GotFile(f)
                      [] cl.op = "readmasked" -> IF f = Absent THEN GotMasked(cl.mode) ELSE GotFile(f)
 FRet == /\ fcall.op # "none"
         /\ file' = FileAfter(file, fcall) /\ got' = GotAfter(file, fcall) /\ fcall' = NoF /\ UNCHANGED fmt
+        /\ lenv' = IF fcall.op = "configure" THEN fcall.mode ELSE lenv
 FNext == (FCall \/ FRet) /\ UNCHANGED bvars /\ UNCHANGED pvars
 FileSpec == FInit /\ [][FNext]_vars
 
@@ -242,17 +251,22 @@ PInit == /\ fmt \in Formats /\ pmode \in PairModes \cap CanHold[fmt]
          /\ BufFrozen /\ OneFileFrozen
 Persisted(px) == IF Masked(BufMode(pmode), px) THEN Absent ELSE [mode |-> BufMode(pmode), px |-> px]   \* write_image
 OpenTo(k, p) == [phand EXCEPT ![k] = [pos |-> p, px |-> IF pfile[p] = Absent THEN AllU ELSE pfile[p].px]]
-MutTo(k, op, s) == [phand EXCEPT ![k].px = IF op = "fill" THEN FillOp(ClassOf(pmode), @, WholePairs, s)
-                                                          ELSE UpdateOp(ClassOf(pmode), @, WholePairs, s)]
+\* "set": the pixels are assigned directly through the array the buffer hands out (buf.asarray()[...] = pixels), not
+\* through fill / update; "clear": buf.clear()
+MutTo(k, op, s) == [phand EXCEPT ![k].px = CASE op = "fill" -> FillOp(ClassOf(pmode), @, WholePairs, s)
+                                             [] op = "update" -> UpdateOp(ClassOf(pmode), @, WholePairs, s)
+                                             [] op = "set" -> s
+                                             [] op = "clear" -> ClearOp(ClassOf(pmode), @)]
 CloseFiles(k) == [pfile EXCEPT ![phand[k].pos] = Persisted(phand[k].px)]
 CloseHands(k) == [phand EXCEPT ![k] = Closed]
 POpen(k, p) == phand[k] = Closed /\ phand' = OpenTo(k, p) /\ UNCHANGED pfile
 PMutate(k, op, s) == phand[k] # Closed /\ phand' = MutTo(k, op, s) /\ UNCHANGED pfile
 PClose(k) == phand[k] # Closed /\ pfile' = CloseFiles(k) /\ phand' = CloseHands(k)
 PNext == /\ \/ \E k \in Handles, p \in Positions : POpen(k, p)
-            \/ \E k \in Handles, op \in {"fill", "update"}, i \in 1..Len(PairSrcSeq) : PMutate(k, op, PairSrcSeq[i])
+            \/ \E k \in Handles, op \in {"fill", "update", "set"}, i \in 1..Len(PairSrcSeq) : PMutate(k, op, PairSrcSeq[i])
+            \/ \E k \in Handles : PMutate(k, "clear", AllU)
             \/ \E k \in Handles : PClose(k)
-         /\ UNCHANGED <<fmt, pmode>> /\ UNCHANGED bvars /\ UNCHANGED <<file, got, fcall>>
+         /\ UNCHANGED <<fmt, pmode>> /\ UNCHANGED bvars /\ UNCHANGED <<file, got, fcall, lenv>>
 PairSpec == PInit /\ [][PNext]_vars
 
 -----------------------------------------------------------------------------
@@ -307,7 +321,7 @@ EveryCallObeysC15 == buf \in ExploreFrom =>
 
 FTypeOK == /\ file.mode \in Modes \cup {"none"} /\ file.px \in Tiles
            /\ file.mode # "none" => file.mode \in CanHold[fmt] /\ file.px \in TilesOf(file.mode)
-           /\ fcall.op \in {"none", "write", "readnone", "readmasked"}
+           /\ fcall.op \in {"none", "write", "readnone", "readmasked", "configure"} /\ lenv \in LoaderConfigs \cup {"fresh"}
 
 FReturns(o) == fcall.op = o /\ fcall'.op = "none"
 FReads == FReturns("readnone") \/ FReturns("readmasked")
@@ -329,6 +343,9 @@ OtherTilesStoredAsWritten == [][(FReturns("write") /\ ~Masked(fcall.mode, fcall.
 StoredTileReadsBackIdentical == [][(FReads /\ file # Absent) =>
     got'.kind = "image" /\ got'.mode = file.mode /\ got'.px = file.px /\ got'.sz = "tile"]_vars
 ReadsDoNotTouchTheFile == [][FReads => file' = file]_vars
+\* ... "identical pixels and mode" whatever other loaders of the process were configured with: configuring one changes
+\* no tile, and the three read-back properties above hold in every lenv (they do not mention it)
+OtherLoadersDoNotMatter == [][FReturns("configure") => file' = file /\ got' = NoGot]_vars
 
 \* ---- two positions, two live buffers
 PTypeOK == /\ \A p \in Positions : pfile[p].px \in Tiles /\ pfile[p].mode \in {"none", BufMode(pmode)}
